@@ -74,6 +74,12 @@ class ConstItem(Fn):
 class Mir:
     def promoted(self, fn_name, k):
         """the promoted constant number k of function fn_name, or None"""
+        key = ('__promoted__', fn_name, k)
+        if key not in self.cache:
+            self.cache[key] = self._promoted(fn_name, k)
+        return self.cache[key]
+
+    def _promoted(self, fn_name, k):
         for crate, text in self.text.items():
             m = re.search(r'^const ' + re.escape(fn_name) + r'::promoted\[%d\]: [^\n]* = \{\n.*?^\}\n' % k, text, re.S | re.M)
             if m:
@@ -966,6 +972,12 @@ class Interp:
         return z3.And(parts) if parts else True
 
     def closure_capture_count(self, loc):
+        cache = self.mir.cache.setdefault('__captures__', {})
+        if loc not in cache:
+            cache[loc] = self._closure_capture_count(loc)
+        return cache[loc]
+
+    def _closure_capture_count(self, loc):
         for crate in self.mir.text:
             mm = re.search(r'^fn [^\n(]*\{closure#\d+\}\(_1: &?(?:mut )?\{closure@' + re.escape(loc) + r'\}.*?^\}\n', self.mir.text[crate], re.S | re.M)
             if mm:
@@ -979,12 +991,18 @@ class Interp:
             return self.resolve(clo.path, args, pc, depth)
         if not isinstance(clo, Closure):
             raise Untranslatable('call of a non-closure value')
-        pat = r'[^\n(]*\{closure#\d+\}'
-        for crate in self.mir.text:
-            for mm in re.finditer(r'^fn (' + pat + r')\(_1: &?(?:mut )?\{closure@' + re.escape(clo.loc) + r'\}', self.mir.text[crate], re.M):
-                fn = self.mir.find(crate, re.escape(mm.group(1)))
-                return self.call_fn(fn, [Ref(lambda: clo)] + args, pc, depth + 1)
-        raise Untranslatable('closure body not found for ' + clo.loc)
+        cache = self.mir.cache.setdefault('__closures__', {})
+        if clo.loc not in cache:
+            pat = r'[^\n(]*\{closure#\d+\}'
+            cache[clo.loc] = None
+            for crate in self.mir.text:
+                mm = re.search(r'^fn (' + pat + r')\(_1: &?(?:mut )?\{closure@' + re.escape(clo.loc) + r'\}', self.mir.text[crate], re.M)
+                if mm:
+                    cache[clo.loc] = self.mir.find(crate, re.escape(mm.group(1)))
+                    break
+        if cache[clo.loc] is None:
+            raise Untranslatable('closure body not found for ' + clo.loc)
+        return self.call_fn(cache[clo.loc], [Ref(lambda: clo)] + args, pc, depth + 1)
 
     def drain(self, it, pc, depth, stop_on_err=False):
         """all (path condition, [items], first_error) outcomes of exhausting iterator `it`"""
